@@ -51,6 +51,11 @@ var cloneScripts = []cloneScript{
 	{name: "closure-and-function-constants", src: `f := func(x) { return func() { return x + a } }; out := f(10)()`, inputs: map[string]interface{}{"a": 0}, sets: []int{1, 2, 3}},
 	{name: "source-module", src: `m := import("mod"); out := m.get(a)`, mods: map[string]string{"mod": `k := [1, 2, 3]; export {get: func(i) { return k[i] }}`}, inputs: map[string]interface{}{"a": 0}, sets: []int{1, 2, 0}},
 	{name: "mutable-input-array", src: `arr[0] = a; arr = append(arr, a); out := arr`, inputs: map[string]interface{}{"a": 0, "arr": []interface{}{0, 0}}, sets: []int{1, 2, 3}},
+	{name: "immutable-input-with-mutable-child", src: `cfg.limits[0] += a; rows[1][0] += a; out := [cfg.limits[0], rows[1][0]]`,
+		inputs: map[string]interface{}{"a": 0,
+			"cfg":  &tengo.ImmutableMap{Value: map[string]tengo.Object{"limits": &tengo.Array{Value: []tengo.Object{&tengo.Int{Value: 10}}}}},
+			"rows": &tengo.ImmutableArray{Value: []tengo.Object{&tengo.Int{Value: 0}, &tengo.Array{Value: []tengo.Object{&tengo.Int{Value: 20}}}}}},
+		sets: []int{1, 2, 3}},
 	{name: "runtime-error-position", src: `out := 0
 if a > 0 {
 	out = a + "x"
